@@ -120,7 +120,7 @@ def election_case(
     special_counties=True,
     Bs=(10, 20, 40),
     lambdas=(None, 0, 0.1, 10),
-    tf_limits=((0.5, 2.0), (0.5, 2.0), (0.8, 1.25)),
+    tf_limits=((0.5, 2.0), (0.5, 2.0), (0.8, 1.25), (0, 2.0)),
     swing_scale=1.0,
     min_nonrep=0,
     unit_types=("precinct", "precinct", "precinct", "county"),
